@@ -28,6 +28,8 @@ func init() {
 			{ID: "C06.d", Template: "T-ORDER", Required: true,
 				Doc: "HttpMiddlewareHandlerToFilter: the inner handler stores its own *http.Request and ResponseWriter into the captured Request/Response before chain.ProcessFilter(req, resp), which it calls exactly once; the outer filter invokes the wrapped middleware exactly once with the current writer and request.",
 				Run: ruleC06d},
+			{ID: "C06.g", Template: "T-FRESH", Required: true, Run: ruleNoSharedBackingArrays,
+				Doc: "The filter list of a route (and every other configuration list) is not built on another object's backing array: no field is assigned `append(<list of another object>, ...)`, and a list taken over as it is from another object is not grown in place afterwards. With 3, 5, 6, 7 ... elements in the shared list two routes built from it run each other's last filter."},
 			{ID: "C06.f", Template: "T-ONCE", Required: true,
 				Doc: "Routing failures: on every path from the branch taken when SelectRoute returned an error to a return, exactly one chain is processed (C06.a decides that this chain holds exactly the container filters). An early return for some kinds of error (a custom router's plain error) answers without the container filters.",
 				Run: ruleC06f},
